@@ -290,6 +290,8 @@ pub fn iota_did_accessors(d: &IotaDID, deep: bool) {
   bb(u.to_string());
   st("IotaDID::into CoreDID");
   bb(CoreDID::from(d.clone()));
+  st("AliasId::from(&IotaDID)");
+  bb(identity_iota_core::block::output::AliasId::from(d));
   // NOTE: `String::from(IotaDID)` / `DID::into_string` on an IotaDID do not terminate (mutual recursion between
   // `From<IotaDID> for String` and the trait's default `into_string`); a hang cannot be observed in-process, so
   // that accessor is exercised by the census family in a child process (entry `hostile/IotaDID::into_string`).
